@@ -299,8 +299,8 @@ func (in *Interp) RunJob(job Job, shed func([][]Decision)) (res JobResult) {
 			res.UninitGlobals = append(res.UninitGlobals, k)
 		}
 		sort.Strings(res.UninitGlobals)
-		if ex.StoreMon != nil {
-			res.StoreMon = map[string]int{"stores": ex.StoreMon.Stores, "shared_synchronised": ex.StoreMon.SharedStores, "atomic": ex.StoreMon.atomicStores, "regions": len(ex.StoreMon.regions)}
+		if len(ex.MonTotals) > 0 {
+			res.StoreMon = ex.MonTotals
 		}
 	}()
 
@@ -476,6 +476,12 @@ func MergeResults(acc *JobResult, r JobResult, keep int) {
 	for k, v := range r.StoreMon {
 		if acc.StoreMon == nil {
 			acc.StoreMon = map[string]int{}
+		}
+		if k == "shared_regions_at_mark" {
+			if v > acc.StoreMon[k] {
+				acc.StoreMon[k] = v
+			}
+			continue
 		}
 		acc.StoreMon[k] += v
 	}
